@@ -1,6 +1,6 @@
 //go:build verif
 
-package semver
+package golang
 
 // Machine-checked contracts for this package (checked by /verif/govc; see /verif/DESIGN.md).
 // This file contains comments only; it is compiled only under the build tag "verif".
